@@ -40,11 +40,17 @@ var VersionB1 = []byte{0x31, 0x62, 0x00, 0x00}
 func (sa SignatureAttributesMap) cborBytes(enc *cbor.Encoder) error {
 	mes := []*cbor.MapEntryEncoder{}
 	for key, value := range sa {
-		mes = append(mes,
-			cbor.GenerateMapEntry(func(keyE *cbor.Encoder, valueE *cbor.Encoder) {
-				keyE.EncodeTextString(key)
-				valueE.EncodeByteString(value)
-			}))
+		var entryErr error
+		me := cbor.GenerateMapEntry(func(keyE *cbor.Encoder, valueE *cbor.Encoder) {
+			if entryErr = keyE.EncodeTextString(key); entryErr != nil {
+				return
+			}
+			entryErr = valueE.EncodeByteString(value)
+		})
+		if entryErr != nil {
+			return fmt.Errorf("integrityblock: Failed to encode signature attribute %q: %v", key, entryErr)
+		}
+		mes = append(mes, me)
 	}
 	if err := enc.EncodeMap(mes); err != nil {
 		return fmt.Errorf("integrityblock: Failed to encode signature attributes: %v", err)
